@@ -56,7 +56,10 @@ Arities(fn) == CASE fn \in NullaryFns \cup {"law1"} -> {0}
 (* ------------------------------------------------------- receiver kinds *)
 EnvStrKinds  == {"env", "fString", "fCode", "fId", "fMarkdown", "fUri", "fUrl", "fCanonical", "fOid", "fUuid"}
 ElemStrKinds == {"elString", "elCode", "elId", "elMarkdown", "elUri"}
-StrKinds     == {"lit"} \cup EnvStrKinds \cup ElemStrKinds
+(* a code bound to a required value set is an enum in the Go model, not a   *)
+(* string field: Patient.gender, which can only hold one of four codes      *)
+Male         == <<109, 97, 108, 101>>
+StrKinds     == {"lit", "elGender"} \cup EnvStrKinds \cup ElemStrKinds
 EmptyKinds   == {"empty", "emptyEnv", "emptyEl"}
 MultiKinds   == {"multi", "multiEl"}
 NonStrKinds  == {"xInt", "xBool", "xDec", "xDate", "xQty", "xComplex", "xFhirBool", "xFhirInt"}
@@ -85,6 +88,7 @@ WellFormed(c) ==
                             /\ c.a[j].src \in {"lit", "env", "fenv"}
                             /\ \A q \in 1..Len(c.a[j].cp) : IsScalar(c.a[j].cp[q])
   /\ c.fn \in LawFns => c.rk \in StrKinds /\ GoodArgs(c)
+  /\ c.rk = "elGender" => c.s = Male
 
 (* ------------------------------------------------------------ rendering *)
 (* A token is ASCII text followed by code points; the harness writes the   *)
@@ -103,6 +107,7 @@ RecvToks(c) ==
     [] c.rk = "elId"         -> T1("Patient.id")
     [] c.rk = "elMarkdown"   -> T1("Patient.extension.value")
     [] c.rk = "elUri"        -> T1("Patient.implicitRules")
+    [] c.rk = "elGender"     -> T1("Patient.gender")
     [] c.rk = "empty"        -> T1("{}")
     [] c.rk = "emptyEnv"     -> T1("%e")
     [] c.rk = "emptyEl"      -> T1("Patient.name.suffix")
@@ -269,12 +274,12 @@ KindAdmits(rk, s) == rk \in {"lit", "env"} \/ s # <<>>
 CasesOf(s, kindLen, regexLen) ==
        ValueCases(s, "lit") \cup LawCases(s, "lit")
   \cup (IF Len(s) <= kindLen
-          THEN UNION {ValueCases(s, rk) : rk \in {k \in StrKinds \ {"lit"} : KindAdmits(k, s)}}
+          THEN UNION {ValueCases(s, rk) : rk \in {k \in StrKinds \ {"lit", "elGender"} : KindAdmits(k, s)}}
                \cup LawCases(s, "env")
           ELSE {})
   \cup (IF Len(s) <= regexLen THEN RegexCases(s, "lit") \cup RegexCases(s, "env") ELSE {})
   \cup (IF Len(s) <= 1 THEN OddReceiverCases(s) \cup OddArgumentCases(s, "lit") \cup OddArgumentCases(s, "env") ELSE {})
-  \cup (IF s = <<>> THEN OddBothCases ELSE {})
+  \cup (IF s = <<>> THEN OddBothCases \cup {c \in ValueCases(Male, "elGender") : c.s = Male} ELSE {})
 
 Emitted(c) == [id |-> CaseId(c), cs |-> c, toks |-> Toks(c)]
 
